@@ -111,7 +111,8 @@ type mediaPath struct {
 	serverRTP  *net.UDPAddr // server RTP port (UDP)
 	tcpChannel int          // interleaved channel of RTP (TCP)
 	tcp        bool
-	owner      int // connection that sent the last PLAY / RECORD answered 200 (-1: none yet)
+	owner      int   // connection that sent the last PLAY / RECORD answered 200 (-1: none yet)
+	chans      []int // interleaved RTP channel echoed by every successful SETUP, in order
 }
 
 type timeoutCfg struct {
@@ -623,11 +624,16 @@ func buildTransports(spec string) (base.HeaderValue, error) {
 		}
 		if f[0] == "t" && f[4] != "0" {
 			a, _ := strconv.Atoi(f[5])
-			b := a + 1
-			if f[4] == "2" {
-				b = a + 2
+			ids := [2]int{a, a + 1}
+			switch f[4] {
+			case "2":
+				ids = [2]int{a, a + 2}
+			case "3":
+				ids = [2]int{a, a}
+			case "4":
+				ids = [2]int{a + 1, a}
 			}
-			t.InterleavedIDs = &[2]int{a, b}
+			t.InterleavedIDs = &ids
 		}
 		ts = append(ts, t)
 	}
@@ -886,13 +892,20 @@ func (in *instance) learnMediaPath(out ReqResult, th *headers.Transport) {
 		return
 	}
 	idx, err := strconv.Atoi(strings.SplitN(out.SessHdr, ":", 2)[0])
-	if err != nil || in.sessMedia[idx] != nil {
+	if err != nil {
+		return
+	}
+	if mp := in.sessMedia[idx]; mp != nil {
+		if mp.tcp && th.InterleavedIDs != nil {
+			mp.chans = append(mp.chans, th.InterleavedIDs[0])
+		}
 		return
 	}
 	mp := &mediaPath{owner: -1}
 	switch {
 	case th.Protocol == headers.TransportProtocolTCP && th.InterleavedIDs != nil:
 		mp.tcp, mp.tcpChannel = true, th.InterleavedIDs[0]
+		mp.chans = []int{th.InterleavedIDs[0]}
 	case th.ClientPorts != nil && th.ServerPorts != nil:
 		mp.udpPort = th.ClientPorts[0]
 		mp.serverRTP = &net.UDPAddr{IP: net.IPv4(127, 0, 0, 1), Port: th.ServerPorts[0]}
@@ -1009,6 +1022,87 @@ func (in *instance) doMedia(k int) string {
 			return "flow 1"
 		}
 	}
+}
+
+// doChanMedia finds out which interleaved channel carries every setupped media of session k while it
+// streams over TCP: a reader must get the packet written to media i on one channel (reported); a
+// publisher's frame on the channel the i-th SETUP answered must be counted for media i (reported; `x`
+// if it was not).  "chans -": not streaming over TCP.
+func (in *instance) doChanMedia(k int) string {
+	var rec *sessRec
+	for _, r := range in.liveSessions() {
+		if r.idx-in.sessBase == k {
+			rec = r
+		}
+	}
+	if rec == nil {
+		return "chans -"
+	}
+	mp := in.sessMedia[k]
+	st := rec.ss.State()
+	tr := rec.ss.Transport()
+	if mp == nil || !mp.tcp || tr == nil || tr.Protocol != gortsplib.ProtocolTCP ||
+		(st != gortsplib.ServerSessionStatePlay && st != gortsplib.ServerSessionStateRecord) {
+		return "chans -"
+	}
+	cl := in.clients[mp.owner]
+	if mp.owner < 0 || cl == nil || cl.dead {
+		return "chans -"
+	}
+	medias := rec.ss.Medias()
+	var got []string
+	for i, medi := range medias {
+		in.mediaSeq++
+		marker := append(append([]byte{}, mediaMarker...), byte(i), byte(in.mediaSeq))
+		pkt := &rtp.Packet{Header: rtp.Header{Version: 2, PayloadType: 96, SequenceNumber: in.mediaSeq, Timestamp: uint32(in.mediaSeq) * 3000, SSRC: 0x5e55},
+			Payload: marker}
+		if st == gortsplib.ServerSessionStatePlay {
+			if err := in.stream.WritePacketRTP(medi, pkt); err != nil {
+				got = append(got, "x")
+				continue
+			}
+			ch := "x"
+			cl.nc.SetReadDeadline(time.Now().Add(mediaWait))
+			for {
+				what, err := cl.c.Read()
+				if err != nil {
+					break
+				}
+				if f, ok := what.(*base.InterleavedFrame); ok && bytes.Contains(f.Payload, marker) {
+					ch = strconv.Itoa(f.Channel)
+					break
+				}
+			}
+			got = append(got, ch)
+			continue
+		}
+		// publisher: the frame goes out on the channel the i-th SETUP answered
+		if i >= len(mp.chans) {
+			got = append(got, "x")
+			continue
+		}
+		before := rec.ss.Stats().Medias[medi].InboundBytes
+		raw, _ := pkt.Marshal()
+		cl.nc.SetWriteDeadline(time.Now().Add(watchdog))
+		if err := cl.c.WriteInterleavedFrame(&base.InterleavedFrame{Channel: mp.chans[i], Payload: raw}, make([]byte, 2048)); err != nil {
+			got = append(got, "x")
+			continue
+		}
+		ch := "x"
+		deadline := time.Now().Add(mediaWait)
+		for time.Now().Before(deadline) {
+			if rec.ss.Stats().Medias[medi].InboundBytes > before {
+				ch = strconv.Itoa(mp.chans[i])
+				break
+			}
+			time.Sleep(2 * time.Millisecond)
+		}
+		got = append(got, ch)
+	}
+	if len(got) == 0 {
+		return "chans -"
+	}
+	return "chans " + strings.Join(got, ",")
 }
 
 // doSilence: every peer stays silent until all timeouts have run out (only sensible on an instance
